@@ -22,7 +22,10 @@ RULE = ('cases are histories of first-touch events on a fresh process (208 event
         'an atom without data in the group; 6 calculator calls; 9 submodule imports; init(elements) and '
         'init(elements, reload=True) of every loader, init_spectral_lines). Walk: breadth-first over abstract loader '
         'states (class-dict kind of every lazy attribute on Element/Isotope/Ion + set(table.properties)), every event '
-        'applied to every state. distinct = distinct abstract loader states reached + distinct (history, probe) pairs '
+        'applied to every state; thorough adds a walk over a finer abstraction (multiplicity of each name in '
+        'table.properties, instance dictionaries of ten representative atoms) with 67 representative events, all 3 600 '
+        'ordered pairs of 60 representative events and 5 000 random histories of length <= 30 over 352 events, each in a '
+        'fresh interpreter. distinct = distinct abstract loader states reached + distinct (history, probe) pairs '
         'replayed in fresh interpreters; each is non-trivial because each compares a served value or the whole '
         '13 000-entry digest with the canonical order')
 TECHNIQUE = ('runtime monitoring: fork-tree exploration of first-touch histories to closure of the abstract loader state, '
@@ -42,7 +45,7 @@ ASSUMPTIONS = ['the canonical order (each group read once through an element, re
                'attribute assignment before first read is not an event (not in the property\'s list of means)',
                'fork() preserves interpreter state; every violation is confirmed in a fresh interpreter before it is reported']
 
-WALK_PROCS = {'quick': 12, 'thorough': 5}     # forked children of shard 0
+WALK_PROCS = {'quick': 12, 'thorough': 6}     # forked children of shard 0
 FRESH_JOBS = {'quick': 2, 'thorough': 1}      # concurrent fresh interpreters per shard
 RANDOM_HISTORIES = {'quick': (200, 8), 'thorough': (5000, 30)}
 STATE_CAP = {'quick': 5000, 'thorough': 20000}
@@ -226,13 +229,14 @@ def check_walk(ctx, case):
         _judge(ctx, {'history': list(X.CANON) + list(_state['events']), 'probe': 'digest'}, 'canonical')
     if X.abstract_state(False) == _state['canon_state']:
         ctx.harness_error('the pristine interpreter already is in the canonical (all loaded) state')
-    w = X.Walk(X.alphabet('quick'), _state['canon_vals'], _state['canon_digest'], fine=fine, cap=case['cap'],
+    which = case.get('alphabet', 'full')
+    w = X.Walk(X.walk_alphabet(which), _state['canon_vals'], _state['canon_digest'], fine=fine, cap=case['cap'],
                nproc=WALK_PROCS[ctx.tier], log=lambda s: _log(ctx, s))
     w.run()
     _log(ctx, 'walk done: %d states, %d transitions, closed=%s capped=%s, %d event / %d digest discrepancies'
          % (len(w.seen), w.transitions, w.closed, w.capped, len(w.event_violations), len(w.digest_violations)))
     for s in w.seen:
-        ctx.distinct_case(('state', s))
+        ctx.distinct_case(('state', case['abstraction'], s))
     ctx.evaluated(w.transitions, 'event-value')
     ctx.evaluated(w.digests, 'digest')
     ctx.count('digest_entries_compared', w.digests * len(_state['canon_digest']))
@@ -250,15 +254,17 @@ def check_walk(ctx, case):
     if _state['canon_state'] not in [X.coarse_of(s) for s in w.seen]:
         ctx.harness_error('the canonical state was not reached by the walk')
     if w.closed:
-        ctx.count('closure_reached')
-    ctx.info['states'] = len(w.seen)
-    ctx.info['transitions'] = w.transitions
-    ctx.info['closure'] = {'reached': bool(w.closed), 'cap': case['cap'], 'cap_reached': bool(w.capped),
-                           'abstraction': case['abstraction'], 'levels': w.levels,
-                           'states_with_differing_digest': len(w.digest_violations),
-                           'transitions_with_differing_value': len(w.event_violations)}
+        ctx.count('closure_reached.' + case['abstraction'])
+    ctx.count('states.' + case['abstraction'], len(w.seen))
+    ctx.info['states'] = ctx.counters['states']
+    ctx.info['transitions'] = ctx.counters['transitions']
+    ctx.info.setdefault('closure', {})[case['abstraction']] = {
+        'reached': bool(w.closed), 'cap': case['cap'], 'cap_reached': bool(w.capped), 'events': len(w.events),
+        'alphabet': which, 'states': len(w.seen), 'transitions': w.transitions, 'levels': w.levels,
+        'states_with_differing_digest': len(w.digest_violations),
+        'transitions_with_differing_value': len(w.event_violations)}
     if w.capped:
-        ctx.note('state cap %d reached: neither a violation nor closure' % case['cap'])
+        ctx.note('%s walk: state cap %d reached: neither a violation nor closure' % (case['abstraction'], case['cap']))
 
     # -- abstraction check: another history into the same abstract state must give the same digest
     first_diff = {json.dumps(h): (n, [e[0] for e in bad]) for h, n, bad, _ in w.digest_violations}
@@ -352,7 +358,9 @@ def _fresh_cases(ctx):
 
 def generate(ctx):
     if ctx.shard == 0:
-        yield 'walk', {'abstraction': 'fine' if ctx.thorough() else 'coarse', 'cap': STATE_CAP[ctx.tier]}
+        yield 'walk', {'abstraction': 'coarse', 'alphabet': 'full', 'cap': STATE_CAP['quick']}
+        if ctx.thorough():
+            yield 'walk', {'abstraction': 'fine', 'alphabet': 'representative', 'cap': STATE_CAP['thorough']}
     workers = list(range(1, ctx.nshards)) or [0]
     mine = [c for i, c in enumerate(_fresh_cases(ctx)) if workers[i % len(workers)] == ctx.shard]
     jobs = FRESH_JOBS[ctx.tier]
@@ -386,9 +394,8 @@ def finish(ctx):
     if ctx.replay:
         return
     ctx.require('cases.walk', 1, 'the fork walk must have run')
-    if not ctx.thorough():
-        ctx.require('closure_reached', 1, 'quick tier: the walk must reach closure of the abstract loader state '
-                                          '(no cap, no dead child, no inconsistent replay)')
+    ctx.require('closure_reached.coarse', 1, 'the full-alphabet walk must reach closure of the abstract loader state '
+                                             '(no cap, no dead child, no inconsistent replay)')
     for g, d in X.GROUPS.items():
         routes = ['iso', 'isoion'] if g == 'neutron_activation' else X.OBJECT_ROUTES
         for r in routes:
